@@ -88,6 +88,9 @@ class Hist:
                           f'by-target-desync:{op}', {'key': k, 'stale': len(extra), 'missing': len(missing)})
                 return
         # --- search() under several casings
+        if list(vmf.search('')):
+            self.fail(f'{label}.search(\'\') found something after "{last}" (a blank name finds nothing)', f'search-desync:{op}', {'query': ''})
+            return
         for name in NAMES + CLASSES + QUERIES:
             if not name:
                 continue
@@ -123,7 +126,7 @@ class Hist:
         op = rng.choice(['create', 'create', 'add_new', 'add_ents', 'remove', 'remove_method', 'set_class', 'set_name',
                          'set_name', 'del_name', 'update', 'pop', 'setdefault', 'clear', 'make_unique', 'copy_same',
                          'copy_other', 'iter_mutate', 'search_mutate', 'reclass_world', 'name_world', 'reparse',
-                         'readd', 'del_other', 'set_other', 'remove_again', 'pop_world'])
+                         'readd', 'del_other', 'set_other', 'remove_again', 'pop_world', 'remove_world', 'clear_world', 'add_again'])
         from srctools.vmf import Entity
         try:
             if op == 'create':
@@ -173,6 +176,12 @@ class Hist:
                 if e is None:
                     return
                 k, v = rng.choice(KEY_NAME), rng.choice(NAMES)
+                if rng.random() < 0.1:
+                    # values that are not strings are converted on the way in (ValidKVs): the index must hold the text
+                    from srctools.math import Vec
+                    v = rng.choice((5, 2.0, True, Vec(1, 2, 3), 0))
+                    if rng.random() < 0.3:
+                        k = rng.choice(KEY_CLASS)
                 self.log.append(f'setitem map{mi} {k}={v!r} (was {e["targetname"]!r}, in_map={e in vmf.entities})')
                 e[k] = v
                 self.nontrivial = True
@@ -342,6 +351,45 @@ class Hist:
                 new = VMF.parse(Keyvalues.parse(text))
                 self.maps[mi] = new
                 self.detached = [e for e in self.detached if e.map is not vmf]
+            elif op == 'remove_world':
+                # the world cannot leave the map, whatever is asked: it stays under 'worldspawn'
+                self.log.append(f'remove of worldspawn map{mi}')
+                if rng.random() < 0.5:
+                    vmf.spawn.remove()
+                else:
+                    vmf.remove_ent(vmf.spawn)
+                self.run.count('worldspawn_removals_asked')
+            elif op == 'clear_world':
+                self.log.append(f'worldspawn clear()/clear_keys() map{mi}')
+                try:
+                    (vmf.spawn.clear if rng.random() < 0.5 else vmf.spawn.clear_keys)()
+                except ValueError:
+                    pass
+                if vmf.spawn['classname'].casefold() != 'worldspawn':
+                    self.fail(f'worldspawn now reports the class {vmf.spawn["classname"]!r}', 'worldspawn-reclassed')
+            elif op == 'add_again':
+                # an entity that is in the map already is added once more (alone, or twice in one add_ents() call, or the
+                # world itself), then perhaps removed once: the tables describe vmf.entities as it stands afterwards
+                if not vmf.entities:
+                    return
+                e = rng.choice(vmf.entities)
+                r = rng.random()
+                self.log.append(f'add_again map{mi} class={e["classname"]!r} name={e["targetname"]!r} form={int(r * 4)}')
+                if r < 0.4:
+                    vmf.add_ent(e)
+                elif r < 0.7:
+                    vmf.add_ents(iter([e, e]))
+                elif r < 0.85:
+                    vmf.add_ents([e, rng.choice(vmf.entities)])
+                else:
+                    vmf.add_ent(vmf.spawn)
+                if rng.random() < 0.6:
+                    vmf.remove_ent(e)
+                    self.log[-1] += ' then remove_ent once'
+                    if e not in vmf.entities:
+                        self.detached.append(e)
+                self.run.count('entities_added_again')
+                self.nontrivial = True
             elif op == 'remove_again':
                 # remove_ent()/remove() of an entity that is no longer in the map is tolerated ("already removed"):
                 # it must not disturb the index entries of the entities that are still there
@@ -403,7 +451,7 @@ def main(run, shard=(0, 1)) -> None:
         # the repository's own tests as an additional workload, with runtime contracts attached (rv/contracts.py)
         from rv.repo_tests_engine import run_repo_tests_with_contracts
         run_repo_tests_with_contracts(run, 'C07', ['test_vmf.py', 'test_instancing.py', 'test_bsp_entities.py', 'test_packlist.py'] if run.tier == 'thorough' else ['test_vmf.py', 'test_instancing.py'])
-    run.require('mutating_iterations_checked', 'invariant_evaluations', 'history_steps')
+    run.require('mutating_iterations_checked', 'worldspawn_removals_asked', 'entities_added_again', 'invariant_evaluations', 'history_steps')
 
 
 def replay(run, data) -> None:
